@@ -91,6 +91,7 @@ func (e *DocumentError) SetIncorrectUserType(s string) {
 
 func (e *DocumentError) SetFile(file *fs.File) {
 	e.file = file
+	e.prepared = false // the cached length, line break and line number belong to the previous file
 }
 
 func (e *DocumentError) SetMessage(message string) {
